@@ -11,6 +11,7 @@ import HT.Model.Event
 import HT.Model.Path
 import HT.Model.Identity
 import HT.Model.Agent
+import HT.Model.Ipp
 /-!
 Line-protocol driver: one case per input line, `<model> <args…>`; one output line
 per case.  Core Lean only (so it links as an executable).
@@ -36,6 +37,7 @@ def dispatch (line : String) : String :=
   | "path" :: args => Path.driver args
   | "idtok" :: args => Id.driver args
   | "agent" :: args => Agent.driver args
+  | "ipp" :: args => Ipp.driver args
   | _ => "bad-model"
 
 partial def loop (h : IO.FS.Stream) (out : IO.FS.Stream) : IO Unit := do
